@@ -53,6 +53,19 @@ impl ScannerCache {
     }
 }
 
+#[cfg(feature = "verif")]
+impl ScannerCache {
+    /// Removes all entries from the cache.
+    pub(crate) fn verif_clear(&mut self) {
+        self.cache.clear();
+    }
+
+    /// Returns the keys of the cache.
+    pub(crate) fn verif_keys(&self) -> Vec<Vec<ScannerMode>> {
+        self.cache.keys().cloned().collect()
+    }
+}
+
 /// The global scanner cache.
 /// This is a singleton that can be accessed from anywhere in the code.
 /// It is a `RwLock` to allow multiple threads to access the cache.
